@@ -1285,3 +1285,312 @@ Proof.
     + eapply Permutation_in; eauto.
     + eapply Permutation_in; [apply Permutation_sym|]; eauto.
 Qed.
+
+(* ------------------------------------------------------------------------------------------------ exact dimension *)
+(* when no recomputation is pending the cached dimension is attained (or the tree is empty and it is -1) *)
+Definition dim_attained (st : state) : Prop :=
+  (tree st = [] /\ dim_ub st = -1) \/ (exists t, t <> [] /\ find_val t (tree st) <> None /\ sdim t = dim_ub st).
+Definition dim_exact (st : state) : Prop := dirty st = false -> dim_attained st.
+
+Lemma nonnil_vertex (l : sibs) : l <> [] -> exists x, find_val [x] l <> None.
+Proof.
+  destruct l as [|[[x w] c] r]; [congruence|]. intros _. exists x. rewrite find_val_cons_eq_one. congruence.
+Qed.
+Lemma height_nil : height_t (Node []) = -1.
+Proof. reflexivity. Qed.
+Lemma height_witness : forall l, wf l -> l <> [] ->
+  exists t, t <> [] /\ find_val t l <> None /\ sdim t = height_t (Node l).
+Proof.
+  apply (sibs_trie_ind (fun c => wf_t c -> kids c <> [] -> exists t, t <> [] /\ find_val t (kids c) <> None /\ sdim t = height_t c)
+                       (fun l => wf l -> l <> [] -> exists t, t <> [] /\ find_val t l <> None /\ sdim t = height_t (Node l))).
+  - intros l H Hw Hne. cbn [kids] in *. apply H; auto; try (rewrite <- wf_t_node; auto).
+  - intros _ H; congruence.
+  - intros x w c r IHc IHr Hwf _. apply wf_cons in Hwf as (Hlb & Hc & Hr). rewrite height_node_cons.
+    destruct (Z_le_gt_dec (height_t (Node r)) (1 + height_t c)) as [Hle|Hgt].
+    + rewrite Z.max_l by lia. destruct c as [[|e c0]].
+      * exists [x]. split; [congruence|]. split; [rewrite find_val_cons_eq_one; congruence | reflexivity].
+      * destruct IHc as (t & Ht & Hf & Hd); auto; [cbn; congruence|]. cbn [kids] in Hf.
+        exists (x :: t). split; [congruence|]. split.
+        -- destruct t as [|y t']; [congruence|]. rewrite find_val_cons_eq_deep. exact Hf.
+        -- unfold sdim in *. cbn [length]. lia.
+    + rewrite Z.max_r by lia.
+      assert (Hrne : r <> []). { intro; subst. rewrite height_nil in Hgt. pose proof (height_lb c). lia. }
+      destruct (IHr Hr Hrne) as (t & Ht & Hf & Hd). exists t. split; auto. split; auto.
+      destruct t as [|z t']; [congruence|].
+      assert (x < z).
+      { apply lb_sibs_get_some with (r := r); auto. apply find_val_head_get with (t := t'). exact Hf. }
+      rewrite find_val_cons_gt by auto. exact Hf.
+Qed.
+
+(* rm_max: when no Siblings was emptied, a simplex of the same dimension is left *)
+Lemma del_length x : forall l, (length l <= S (length (del x l)))%nat.
+Proof.
+  induction l as [|[[y w] c] r IH]; cbn [del length]; auto.
+  zcmp x y; cbn [length]; lia.
+Qed.
+Lemma rm_max_nonnil s : forall l, s <> [] -> find_val s l <> None -> snd (rm_max s l false) = false ->
+  fst (rm_max s l false) <> [].
+Proof.
+  destruct s as [|x [|y r]]; intros l Hs Hf He; [congruence| |].
+  - rewrite rm_max_one in *. cbn [fst snd negb andb] in *.
+    pose proof (del_length x l). destruct (del x l); [cbn [length] in *; lia | congruence].
+  - rewrite rm_max_cons2 in *. rewrite find_val_deep in Hf.
+    destruct (get x l) as [[w [c]]|] eqn:E; [|congruence].
+    destruct (rm_max (y :: r) c false) as [c' e]. cbn [fst].
+    intro Hn. assert (get x (put x w (Node c') l) = Some (w, Node c')) by apply get_put_same.
+    rewrite Hn in H. discriminate.
+Qed.
+Lemma rm_max_witness s : forall l a, wf l -> s <> [] -> find_val s l <> None ->
+  snd (rm_max s l a) = false -> fst (rm_max s l a) <> [] ->
+  exists t, length t = length s /\ find_val t (fst (rm_max s l a)) <> None.
+Proof.
+  induction s as [|x [|y r] IH]; intros l a Hwf Hs Hf He Hne; [congruence| |].
+  - rewrite rm_max_one in *. cbn [fst] in *. destruct (nonnil_vertex _ Hne) as (z & Hz). exists [z]. auto.
+  - rewrite rm_max_cons2 in *. rewrite find_val_deep in Hf.
+    destruct (get x l) as [[w [c]]|] eqn:E; [|congruence].
+    assert (Hc : wf c) by (rewrite <- wf_t_node; eapply wf_get; eauto).
+    pose proof (rm_max_nonnil (y :: r) c) as Hnn. specialize (IH c false Hc).
+    destruct (rm_max (y :: r) c false) as [c' e]. cbn [fst snd] in *.
+    assert (Hyr : y :: r <> []) by congruence.
+    destruct (IH Hyr Hf He (Hnn Hyr Hf He)) as (t & Hlen & Hft).
+    exists (x :: t). split; [cbn [length] in *; lia|].
+    destruct t as [|z t']; [cbn in Hlen; lia|]. rewrite find_val_deep, get_put_same. exact Hft.
+Qed.
+
+(* prune_above_filtration that removes nothing is the identity *)
+Lemma prune_size f : forall l,
+  size_t (Node (prune_sibs f l)) <= size_t (Node l) /\
+  (size_t (Node (prune_sibs f l)) = size_t (Node l) -> prune_sibs f l = l).
+Proof.
+  apply (sibs_trie_ind (fun t => size_t (prune_f f t) <= size_t t /\ (size_t (prune_f f t) = size_t t -> prune_f f t = t))
+                       (fun l => size_t (Node (prune_sibs f l)) <= size_t (Node l) /\
+                                 (size_t (Node (prune_sibs f l)) = size_t (Node l) -> prune_sibs f l = l))).
+  - intros l [H1 H2]. rewrite prune_f_node. split; auto. intro E. f_equal. auto.
+  - rewrite prune_sibs_nil. split; auto. lia.
+  - intros x w c r [Hc1 Hc2] [Hr1 Hr2]. rewrite prune_sibs_cons.
+    pose proof (size_nonneg c). destruct (f <? w).
+    + rewrite size_node_cons. split; [lia|]. intro E. lia.
+    + rewrite !size_node_cons. split; [lia|]. intro E. rewrite Hc2 by lia. rewrite Hr2 by lia. reflexivity.
+Qed.
+
+(* prune_above_dimension that removes something leaves a simplex of the new dimension *)
+Lemma trunc_witness : forall l, wf l -> forall k,
+  size_t (Node (trunc_sibs l k)) <> size_t (Node l) ->
+  exists t, length t = S k /\ find_val t l <> None.
+Proof.
+  apply (sibs_trie_ind (fun c => wf_t c -> forall k, size_t (trunc c k) <> size_t c ->
+                                 exists t, length t = S k /\ find_val t (kids c) <> None)
+                       (fun l => wf l -> forall k, size_t (Node (trunc_sibs l k)) <> size_t (Node l) ->
+                                 exists t, length t = S k /\ find_val t l <> None)).
+  - intros l H Hw k Hs. rewrite trunc_node in Hs. cbn [kids]. apply H; auto; try (rewrite <- wf_t_node; auto).
+  - intros _ k H. cbn in H. congruence.
+  - intros x w c r IHc IHr Hwf k Hs. apply wf_cons in Hwf as (Hlb & Hc & Hr).
+    cbn [trunc_sibs map] in Hs. fold (trunc_sibs r k) in Hs. rewrite !size_node_cons in Hs.
+    destruct (Z.eq_dec (size_t (cut k c)) (size_t c)) as [Ec|Ec].
+    + destruct (IHr Hr k) as (t & Hlen & Hf); [lia|]. exists t. split; auto.
+      destruct t as [|z t']; [discriminate|].
+      assert (x < z).
+      { apply lb_sibs_get_some with (r := r); auto. apply find_val_head_get with (t := t'). exact Hf. }
+      rewrite find_val_cons_gt by auto. exact Hf.
+    + destruct k as [|k']; cbn [cut] in Ec.
+      * exists [x]. split; auto. rewrite find_val_cons_eq_one. congruence.
+      * destruct (IHc Hc k' Ec) as (t & Hlen & Hf). exists (x :: t). split; [cbn [length]; lia|].
+        destruct c as [c0]. cbn [kids] in Hf. destruct t as [|y t']; [discriminate|].
+        rewrite find_val_cons_eq_deep. exact Hf.
+Qed.
+
+Definition lb_ok (st : state) : Prop := -1 <= dim_ub st.
+Lemma sdim_lb (t : simplex) : -1 <= sdim t.
+Proof. unfold sdim. lia. Qed.
+
+Lemma step_lb fx st o : lb_ok st -> refined_op o = true -> lb_ok (step fx st o).
+Proof.
+  unfold lb_ok. intros H Hr. destruct o; try discriminate; cbn [step].
+  - cbn [dim_ub]. pose proof (sdim_lb (norm s)). destruct (_ && _); lia.
+  - destruct (norm s) eqn:E; auto. cbn [dim_ub]. lia.
+  - cbn [dim_ub]. destruct (_ && _); lia.
+  - destruct (rm_max (norm s) (tree st) true) as [t e]. cbn [dim_ub]. destruct (_ && _); lia.
+  - cbn [dim_ub]. lia.
+  - destruct (dim_ub st <=? d) eqn:E1; auto. destruct (d <? 0) eqn:E2.
+    + destruct (is_nil (tree st)); auto. cbn [dim_ub]. lia.
+    + destruct (_ =? _); auto. cbn [dim_ub]. lia.
+  - unfold dimension. destruct (dirty st); cbn [fst]; auto. cbn [lower_ub dim_ub].
+    pose proof (height_lb (Node (tree st))). unfold exact_dim. destruct (_ <=? _); lia.
+Qed.
+
+Lemma present_ins_raw s v l t : s <> [] -> t <> [] -> find_val t l <> None -> find_val t (ins_raw s v l) <> None.
+Proof.
+  intros Hs Ht H. rewrite find_ins_raw by auto.
+  destruct (seqb t s); [congruence|]. destruct (prefixb t s && negb (is_some (find_val t l))); congruence.
+Qed.
+
+Lemma step_dim_exact st K o :
+  inv st K -> good K = true -> lb_ok st -> dim_exact st -> refined_op o = true -> pre_op K o = true ->
+  dim_exact (step true st o).
+Proof.
+  intros [[Hwf Ha] Hub] Hg Hlb Hex Hr Hpre. unfold dim_exact in *. destruct o; try discriminate; cbn [step].
+  - (* insert_simplex *)
+    cbn [pre_op] in Hpre. apply andb_true_iff in Hpre as [Hpre _]. apply andb_true_iff in Hpre as [Hne _].
+    assert (Hs : norm s <> []) by (apply norm_nonnil; destruct s; [discriminate | congruence]).
+    cbn [dirty]. intro Hd. specialize (Hex Hd). unfold dim_attained. cbn [tree dim_ub].
+    assert (Hsp : find_val (norm s) (ins_raw (norm s) v (tree st)) <> None).
+    { rewrite find_ins_raw by auto. rewrite seqb_refl. congruence. }
+    rewrite is_some_find_val.
+    destruct (negb (is_some (find_val (norm s) (tree st))) && (dim_ub st <? sdim (norm s))) eqn:E.
+    + right. exists (norm s). auto.
+    + destruct Hex as [[Hnil Hm1]|(t & Ht & Hf & Hdm)].
+      * exfalso. rewrite Hnil, find_val_nil_l, Hm1 in E. cbn [is_some negb andb] in E.
+        pose proof (sdim_nonneg _ Hs). lia.
+      * right. exists t. split; auto. split; auto. apply present_ins_raw; auto.
+  - (* insert_simplex_and_subfaces *)
+    destruct (norm s) as [|x r] eqn:En; auto.
+    rewrite <- En in *. assert (Hs : norm s <> []) by congruence.
+    cbn [dirty]. intro Hd. specialize (Hex Hd). unfold dim_attained. cbn [tree dim_ub]. right.
+    pose proof (find_ins_sub (norm s) v (tree st) (norm_sorted s) Hs (good_exit_ok K _ _ _ Hg (conj Hwf Ha))) as [_ Hf].
+    destruct (Z_le_gt_dec (dim_ub st) (sdim (norm s))) as [Hle|Hgt].
+    + exists (norm s). split; auto. split; [|lia]. rewrite Hf by auto. rewrite subseq_refl. congruence.
+    + destruct Hex as [[Hnil Hm1]|(t & Ht & Hft & Hdm)].
+      * pose proof (sdim_nonneg _ Hs). lia.
+      * exists t. split; auto. split; [|lia]. rewrite Hf by auto. destruct (subseq t (norm s)); congruence.
+  - (* insert_batch_vertices *)
+    cbn [dirty]. intro Hd. specialize (Hex Hd). unfold dim_attained. cbn [tree dim_ub].
+    destruct Hex as [[Hnil Hm1]|(t & Ht & Hft & Hdm)].
+    + rewrite Hm1. destruct (ins_batch vs v (tree st)) as [|e l'] eqn:Eb.
+      * left. auto.
+      * right. cbn [is_nil negb andb]. destruct (nonnil_vertex (e :: l')) as (z & Hz); [congruence|].
+        exists [z]. split; [congruence|]. split; auto.
+    + right. pose proof (sdim_nonneg _ Ht). assert (dim_ub st <? 0 = false) as -> by lia. cbn [andb].
+      exists t. split; auto. split; auto. rewrite find_ins_batch by auto.
+      destruct t as [|z [|z' t']]; auto. destruct (existsb (Z.eqb z) vs); congruence.
+  - (* remove_maximal_simplex *)
+    cbn [pre_op] in Hpre. apply andb_true_iff in Hpre as [Hmem Hcof]. apply negb_true_iff in Hcof.
+    destruct (rm_max (norm s) (tree st) true) as [t0 e] eqn:Er.
+    assert (Ht0 : t0 = fst (rm_max (norm s) (tree st) true)) by (rewrite Er; reflexivity).
+    assert (He0 : e = snd (rm_max (norm s) (tree st) true)) by (rewrite Er; reflexivity).
+    cbn [dirty]. intro Hd. apply orb_false_iff in Hd as [Hd He]. specialize (Hex Hd).
+    unfold dim_attained. cbn [tree dim_ub]. cbn [andb].
+    destruct t0 as [|e0 l0] eqn:Et0; [left; auto|]. right. cbn [is_nil].
+    assert (Hne0 : e0 :: l0 <> []) by congruence.
+    set (T := e0 :: l0) in *. clearbody T. clear Et0 t0.
+    destruct (norm s) as [|x r] eqn:En.
+    + cbn [rm_max fst] in Ht0. subst T. destruct Hex as [[Hnil _]|Hex]; [congruence | exact Hex].
+    + rewrite <- En in *. assert (Hs : norm s <> []) by congruence.
+      assert (Hin : find_val (norm s) (tree st) <> None).
+      { rewrite Ha by auto. unfold cmem in Hmem. destruct (lookup K (norm s)); [congruence | discriminate]. }
+      destruct Hex as [[Hnil _]|(t & Ht & Hft & Hdm)]; [rewrite Hnil, find_val_nil_l in Hin; congruence|].
+      destruct (prefixb (norm s) t) eqn:Ep.
+      * assert (t = norm s).
+        { eapply has_coface_false; eauto. rewrite <- Ha by auto. exact Hft. }
+        subst t.
+        destruct (rm_max_witness (norm s) (tree st) true Hwf Hs Hin) as (t' & Hlen & Hft').
+        { rewrite <- He0. exact He. }
+        { rewrite <- Ht0. exact Hne0. }
+        exists t'. split; [destruct t'; [destruct (norm s); [congruence | discriminate] | congruence]|].
+        split; [rewrite Ht0; exact Hft' | unfold sdim in *; lia].
+      * exists t. split; auto. split; auto. rewrite Ht0, find_rm_max by auto. rewrite Ep. exact Hft.
+  - (* prune_above_filtration *)
+    cbn [dirty]. intro Hd. apply orb_false_iff in Hd as [Hd Hsz]. specialize (Hex Hd).
+    apply negb_false_iff in Hsz. apply Z.eqb_eq in Hsz.
+    change (kids (prune_f f (Node (tree st)))) with (prune_sibs f (tree st)) in *.
+    destruct (prune_size f (tree st)) as [_ Hid]. rewrite Hid in * by auto.
+    unfold dim_attained in *. cbn [tree dim_ub]. exact Hex.
+  - (* prune_above_dimension *)
+    destruct (dim_ub st <=? d) eqn:E1; auto.
+    destruct (d <? 0) eqn:E2.
+    + destruct (is_nil (tree st)); auto. cbn [dirty]. intros _. left. auto.
+    + rewrite trunc_node. cbn [kids].
+      destruct (size_t (Node (trunc_sibs (tree st) (Z.to_nat d))) =? size_t (Node (tree st))) eqn:E3; auto.
+      cbn [dirty]. intros _. right. cbn [tree dim_ub].
+      destruct (trunc_witness (tree st) Hwf (Z.to_nat d)) as (t & Hlen & Hft); [lia|].
+      assert (Ht : t <> []) by (destruct t; [discriminate | congruence]).
+      exists t. split; auto. split.
+      * rewrite find_trunc by auto. rewrite Hlen, Nat.leb_refl. exact Hft.
+      * unfold sdim. lia.
+  - (* clear *)
+    intros _. left. auto.
+  - (* dimension() *)
+    unfold dimension. destruct (dirty st) eqn:Ed; cbn [fst]; [|rewrite Ed; auto].
+    intros _. unfold dim_attained. cbn [lower_ub tree dim_ub]. unfold exact_dim.
+    destruct (tree st) as [|e0 l0] eqn:Et.
+    + left. split; auto. rewrite height_nil. unfold lb_ok in Hlb. destruct (dim_ub st <=? -1) eqn:E; lia.
+    + right. rewrite <- Et in *.
+      destruct (height_witness (tree st) Hwf) as (t & Ht & Hft & Hh); [rewrite Et; congruence|].
+      exists t. split; auto. split; auto.
+      assert (sdim t <= dim_ub st) by (apply Hub; auto).
+      destruct (dim_ub st <=? height_t (Node (tree st))) eqn:E; lia.
+Qed.
+
+Lemma in_lookup K t v : In (t, v) K -> lookup K t <> None.
+Proof.
+  induction K as [|[u w] K IH]; cbn [In lookup]; [tauto|].
+  intros [H|H].
+  - inversion H; subst. rewrite seqb_refl. congruence.
+  - destruct (seqb u t); [congruence | auto].
+Qed.
+Lemma cdim_ge K t v : In (t, v) K -> sdim t <= cdim K.
+Proof.
+  unfold cdim. induction K as [|[u w] K IH]; cbn [In fold_right fst]; [tauto|].
+  intros [H|H]; [inversion H; subst; lia | specialize (IH H); lia].
+Qed.
+Lemma cdim_le K d : -1 <= d -> (forall t v, In (t, v) K -> sdim t <= d) -> cdim K <= d.
+Proof.
+  unfold cdim. intros Hd. induction K as [|[u w] K IH]; intros H; cbn [fold_right fst]; [lia|].
+  assert (sdim u <= d) by (apply (H u w); left; auto).
+  assert (fold_right (fun p m => Z.max (sdim (fst p)) m) (-1) K <= d) by (apply IH; intros t v Hin; apply (H t v); right; auto).
+  lia.
+Qed.
+Lemma cdim_lb K : -1 <= cdim K.
+Proof. unfold cdim. induction K as [|p K IH]; cbn [fold_right]; lia. Qed.
+
+Lemma run_full_inv : forall ops st K,
+  inv st K -> good K = true -> lb_ok st -> dim_exact st -> forallb refined_op ops = true -> ok_from K ops = true ->
+  inv (fold_left (step true) ops st) (fold_left spec_step ops K) /\
+  good (fold_left spec_step ops K) = true /\
+  lb_ok (fold_left (step true) ops st) /\ dim_exact (fold_left (step true) ops st).
+Proof.
+  induction ops as [|o ops IH]; intros st K Hi Hg Hlb Hex Hp Hok; cbn [fold_left]; auto.
+  cbn [forallb] in Hp. apply andb_true_iff in Hp as [Hp1 Hp2].
+  cbn [ok_from] in Hok. apply andb_true_iff in Hok as [Hok Hok3]. apply andb_true_iff in Hok as [Hok1 Hok2].
+  apply IH; auto.
+  - apply step_inv; auto.
+  - apply step_lb; auto.
+  - eapply step_dim_exact; eauto.
+Qed.
+
+(* exactness of a state in which the cached dimension is attained *)
+Lemma attained_is_cdim st K : inv st K -> lb_ok st -> dim_attained st -> dim_ub st = cdim K.
+Proof.
+  intros [[Hwf Ha] Hub] Hlb Hat. apply Z.le_antisymm.
+  - destruct Hat as [[Hnil Hm1]|(t & Htn & Hft & Hdm)].
+    + rewrite Hm1. apply cdim_lb.
+    + rewrite <- Hdm. rewrite Ha in Hft by auto.
+      destruct (lookup K t) as [v|] eqn:El; [|congruence]. apply lookup_in in El. eapply cdim_ge; eauto.
+  - apply cdim_le; [exact Hlb|]. intros t v Hin. destruct t as [|z t']; [unfold sdim; cbn; exact Hlb|].
+    apply Hub; [congruence|]. rewrite Ha by congruence. eapply in_lookup; eauto.
+Qed.
+
+(* the dimension reported by dimension() is the dimension of the abstract complex of the history, and the cached
+   value is already exact whenever no recomputation is pending; repaired bookkeeping (fx = true) *)
+Theorem dimension_exact ops :
+  forallb refined_op ops = true -> ok_history ops = true ->
+  snd (dimension (run true ops)) = cdim (spec_run ops) /\
+  (dirty (run true ops) = false -> dim_ub (run true ops) = cdim (spec_run ops)).
+Proof.
+  intros Hp Hok.
+  assert (H0 : inv empty_state []).
+  { split; [split; [apply wf_nil|] |]; intros t _; cbn [tree empty_state]; rewrite find_val_nil_l; [reflexivity | congruence]. }
+  assert (Hl0 : lb_ok empty_state) by (unfold lb_ok; cbn; lia).
+  assert (He0 : dim_exact empty_state) by (intros _; left; split; reflexivity).
+  destruct (run_full_inv ops empty_state [] H0 eq_refl Hl0 He0 Hp Hok) as (Hi & Hg & Hlb & Hex).
+  fold (run true ops) in *. fold (spec_run ops) in *.
+  set (st := run true ops) in *. set (K := spec_run ops) in *.
+  split.
+  - (* dimension() is one more step *)
+    change (snd (dimension st)) with (dim_ub (step true st ODim)).
+    assert (Hi' : inv (step true st ODim) (spec_step K ODim)) by (apply step_inv; auto).
+    assert (Hlb' : lb_ok (step true st ODim)) by (apply step_lb; auto).
+    assert (Hex' : dim_exact (step true st ODim)) by (eapply step_dim_exact; eauto).
+    apply attained_is_cdim; auto. apply Hex'.
+    cbn [step]. unfold dimension. destruct (dirty st) eqn:Ed; cbn [fst]; auto.
+  - intro Hd. apply attained_is_cdim; auto.
+Qed.
